@@ -1112,3 +1112,96 @@ def probe_plant(spec):
     except Exception as e:
         o['patterns_error'] = repr(e)[:300]
     return o
+
+
+# ------------------------------------------------------------------ C11: the value layer of the serialiser (Codec.v)
+def _mk_value(d):
+    """python object from a value description (the forms asset parameters take)"""
+    import datetime as _dt
+    k = d['k']
+    if k == 'num':
+        return float(d['v'])
+    if k == 'str':
+        return d['v']
+    if k == 'bool':
+        return bool(d['v'])
+    if k == 'none':
+        return None
+    if k == 'date':
+        return (_dt.date(1970, 1, 1) + _dt.timedelta(days=d['v']))
+    if k == 'stamp':
+        t = pd.Timestamp(d['v'], unit='s')
+        if d.get('tz'):
+            t = t.tz_localize('UTC').tz_convert(d['tz'])
+        return t if d.get('as') != 'datetime' else t.to_pydatetime()
+    if k == 'arr':
+        return np.asarray(d['v'], dtype=float)
+    if k == 'datearr':
+        return np.asarray(d['v'], dtype='int64').astype('datetime64[%s]' % d['unit'])
+    if k == 'index':
+        ix = pd.DatetimeIndex([pd.Timestamp(t, unit='s') for t in d['v']])
+        if d.get('tz'):
+            ix = ix.tz_localize('UTC').tz_convert(d['tz'])
+        if d.get('freq'):
+            ix = pd.DatetimeIndex(ix, freq=d['freq'])
+        return ix
+    if k == 'list':
+        return [_mk_value(e) for e in d['v']]
+    if k == 'dict':
+        return {kk: _mk_value(e) for kk, e in d['v']}
+    raise ValueError(k)
+
+
+def _describe(obj):
+    """value description of a python object (what load_from_json returned)"""
+    import datetime as _dt
+    if obj is None:
+        return {'k': 'none'}
+    if isinstance(obj, bool):
+        return {'k': 'bool', 'v': obj}
+    if isinstance(obj, (int, float)):
+        return {'k': 'num', 'v': float(obj)}
+    if isinstance(obj, str):
+        return {'k': 'str', 'v': obj}
+    if isinstance(obj, pd.Timestamp) or isinstance(obj, _dt.datetime):
+        t = pd.Timestamp(obj)
+        if t.tzinfo is None:
+            return {'k': 'stamp', 'v': int(t.value // 10 ** 9), 'tz': None}
+        return {'k': 'stamp', 'v': int(t.tz_convert('UTC').tz_localize(None).value // 10 ** 9), 'tz': str(t.tzinfo)}
+    if isinstance(obj, _dt.date):
+        return {'k': 'date', 'v': (obj - _dt.date(1970, 1, 1)).days}
+    if isinstance(obj, pd.DatetimeIndex):
+        tz = None if obj.tz is None else str(obj.tz)
+        vals = [int((t.tz_convert('UTC').tz_localize(None) if t.tzinfo is not None else t).value // 10 ** 9) for t in obj]
+        return {'k': 'index', 'v': vals, 'tz': tz, 'freq': obj.freqstr}
+    if isinstance(obj, np.ndarray):
+        if np.issubdtype(obj.dtype, np.datetime64):
+            unit = np.datetime_data(obj.dtype)[0]
+            return {'k': 'datearr', 'unit': unit, 'v': [int(v) for v in obj.astype('int64')]}
+        return {'k': 'arr', 'v': [float(v) for v in obj]}
+    if isinstance(obj, list):
+        return {'k': 'list', 'v': [_describe(e) for e in obj]}
+    if isinstance(obj, dict):
+        return {'k': 'dict', 'v': [[kk, _describe(e)] for kk, e in obj.items()]}
+    return {'k': 'unknown', 'v': repr(obj)[:80]}
+
+
+def probe_codec(spec):
+    import json as _json
+    from eaopack.serialization import to_json, load_from_json
+    o = {'status': 'ok', 'cases': []}
+    for d in spec['values']:
+        r = {}
+        try:
+            obj = _mk_value(d)
+            s1 = to_json(obj)
+            r['j1'] = _json.loads(s1)
+            obj2 = load_from_json(s1)
+            r['loaded'] = _describe(obj2)
+            s2 = to_json(obj2)
+            r['j2'] = _json.loads(s2)
+            r['same_text'] = bool(s1 == s2)
+        except Exception as e:
+            r['error'] = repr(e)[:300]
+        o['cases'].append(r)
+    return o
